@@ -24,6 +24,9 @@ type WorldSpec struct {
 	Files map[string]BStr `json:"files,omitempty"`
 	// StreamFiles: the files are not regular files (pipes, devices): Stat reports size 0
 	StreamFiles bool `json:"stream_files,omitempty"`
+	// UnsetAfterBuild: variables that are in the environment while the parser is
+	// constructed and gone (unset by the program) before its first use.
+	UnsetAfterBuild []string `json:"unset_after_build,omitempty"`
 }
 
 type Op struct {
@@ -177,6 +180,11 @@ type InjectedErr struct{ ID int }
 // sliceErr: an error of a slice type (comparing two of them with == panics).
 type sliceErr []int
 
+// panicErr: the callee fault plan's way of saying "panic instead of returning".
+type panicErr struct{ id int }
+
+func (e panicErr) Error() string { return fmt.Sprintf("injected panic #%d", e.id) }
+
 func (e sliceErr) Error() string { return fmt.Sprintf("injected error #%d (of a slice type)", e[0]) }
 
 func (e *InjectedErr) Error() string {
@@ -265,6 +273,9 @@ func makeInjected(id int, form string) error {
 	if form == "uncomparable" {
 		// an error whose dynamic type cannot be compared with == (a slice type)
 		return sliceErr{id}
+	}
+	if form == "panic" {
+		return panicErr{id} // the callee does not return at all: it panics
 	}
 	if form == "typed-nil-flags" {
 		var e *flags.Error // a nil *flags.Error inside a non-nil error interface
@@ -487,6 +498,10 @@ func Execute(sc *Scenario, sched *simrt.Schedule) (out *Outcome) {
 		}()
 		return Build(sc.Decl)
 	}()
+	for _, k := range sc.World.UnsetAfterBuild {
+		delete(w.Env, k)
+		w.Event("unsetenv %s (after construction)", k)
+	}
 	w.Ticks, w.TickBudget = 0, 1<<40
 	w.WallDeadline = time.Now().Add(60 * time.Second).UnixNano()
 	ctx.b = b
